@@ -180,6 +180,14 @@ Theorem new_monitor_clauses_silent_on_model : forall inp,
 Proof. exact clauses_8_9_silent_on_model. Qed.
 Print Assumptions new_monitor_clauses_silent_on_model.
 
+(** ... and so does clause 10, the stack offering rule in the monitor's own
+    (boolean, script-indexed) form: [stack_offering_rule] carried over to the
+    encoded observation. *)
+Theorem stack_rule_clause_silent_on_model : forall inp,
+  clause10 (q_anss (dec_case16 inp)) (obs_offered (run16 inp)) = true.
+Proof. exact clause_10_silent_on_model. Qed.
+Print Assumptions stack_rule_clause_silent_on_model.
+
 (** Non-vacuity: the original fails after one byte, the replacement is opened
     at offset 1; the consumer gets 1,2,3 once each, validation succeeds, the
     error 14 is offered once and Done is reported once. *)
